@@ -14,7 +14,15 @@ C10 — additions to `Thm/C10.lean`:
   `C10_scan_exact_parsed`);
 * witnesses: `Hyp` on a FILE view with two sections and a non-empty reference list; `SecWF` cannot be
   dropped from `Hyp` (`C10_scan_complete_needs_SecWF`: the same file with its two section headers in
-  descending order of VirtualAddress — a file `PeFile::from_bytes` accepts — loses a match).
+  descending order of VirtualAddress — a file `PeFile::from_bytes` accepts — loses a match);
+* the performance counter `Matches::hits` and the progress of `Matches::range` (last section): every
+  returning call of `next` — any interpreter, any image, any atom list, no hypothesis — leaves
+  `range.end` alone, moves `range.start` forward and not beyond `max range.start range.end`, and
+  raises `hits` by at most the number of positions `range.start` advanced and by at least one per
+  reported match (`C10_hits_bounded_with`, `C10_hits_bounded`, `C10_next_advance`, `C10_scan_hits`);
+  hence over the life of a `Matches` object `hits ≤ range.end - lo < 2^32`: the checked `u32`
+  increment `self.hits += 1` cannot overflow (`C10_hits_no_overflow`, `C10_hits_no_overflow_code`,
+  `C10_scan_hits_no_overflow`).
 -/
 namespace Pelite.Scan
 open Pelite.Pattern Pelite.Exec
@@ -242,5 +250,153 @@ theorem C10_scan_complete_without_SecWF_false :
   intro h
   obtain ⟨v, pat, lo, hi, n, save, a, _, h1, h2, h3, h4, h5, _, h7, h8, p, hp, hnp⟩ := C10_scan_complete_needs_SecWF
   exact hnp (h v pat lo hi ⟨h1, h2, h3, h4, h5⟩ n save a h7 h8 p hp)
+
+/-! ## the performance counter `hits` and the progress of `range.start` -/
+
+/-- **One returning call of `next`, ANY interpreter, any prefix list, any image** (file or mapped,
+any section table), any `Matches` state and save array — no hypothesis besides "the call returns"
+(a panic of the checked `u32` range arithmetic is a non-`ok` result; `C10_next_sound` shows when none
+occurs).  `range.end` is untouched; `range.start` never decreases and never passes
+`max range.start range.end`; `hits` never decreases and grows by at most the number of positions
+`range.start` advanced; a reported position lies in `[range.start before, range.start after)` and
+cost at least one interpreter call. -/
+theorem C10_hits_bounded_with (ex : Interp) (v : Pe.View) (qs : List Nat) (m : MSt) (s : Array Nat) (r : Res)
+    (h : nextWith ex v qs m s = .ok r) :
+    r.m.stop = m.stop ∧ m.start ≤ r.m.start ∧ r.m.start ≤ max m.start m.stop ∧
+    m.hits ≤ r.m.hits ∧ r.m.hits ≤ m.hits + (r.m.start - m.start) ∧
+    (r.found = true → m.start ≤ r.pos ∧ r.pos < r.m.start ∧ m.hits + 1 ≤ r.m.hits) := by
+  have A := nextWith_hits v qs m s r h
+  have := A.hits_le; have := A.start_le
+  exact ⟨A.stop_eq, A.start_le, A.start_bound, A.hits_ge, by omega, A.found⟩
+
+/-- **`hits` is bounded by the progress of `range.start`** — `Matches::next` itself, every image,
+every atom list, no hypothesis besides "the call returns" -/
+theorem C10_hits_bounded (v : Pe.View) (pat : List Atom) (m : MSt) (s : Array Nat) (r : Res)
+    (h : next v pat m s = .ok r) : m.start ≤ r.m.start ∧ r.m.hits ≤ m.hits + (r.m.start - m.start) := by
+  obtain ⟨_, h2, _, _, h5, _⟩ := C10_hits_bounded_with (interp v pat) v (setup pat) m s r h
+  exact ⟨h2, h5⟩
+
+/-- the remaining facts of `C10_hits_bounded_with` for `Matches::next` -/
+theorem C10_next_advance (v : Pe.View) (pat : List Atom) (m : MSt) (s : Array Nat) (r : Res)
+    (h : next v pat m s = .ok r) :
+    r.m.stop = m.stop ∧ r.m.start ≤ max m.start m.stop ∧ m.hits ≤ r.m.hits ∧
+    (r.found = true → m.start ≤ r.pos ∧ r.pos < r.m.start ∧ m.hits + 1 ≤ r.m.hits) := by
+  obtain ⟨h1, _, h3, h4, _, h6⟩ := C10_hits_bounded_with (interp v pat) v (setup pat) m s r h
+  exact ⟨h1, h3, h4, h6⟩
+
+/-- PE32 FILE (`wSorted`, two sections, first-byte scan): the first call examines rva 0x1004 only -/
+example : (next wSorted wPat (matchesInit 0 0x3000) #[0, 0]).bind (fun r => .ok (r.found, r.pos, r.m)) =
+    .ok (true, 0x1004, ⟨0x1005, 0x3000, 1⟩) := by decide +kernel
+/-- … the second call examines 0x1010 (`aa bb 00 dd`, rejected) in `.text` and reports 0x2008 in `.data` -/
+example : (next wSorted wPat ⟨0x1005, 0x3000, 1⟩ #[0, 0]).bind (fun r => .ok (r.found, r.pos, r.m)) =
+    .ok (true, 0x2008, ⟨0x2009, 0x3000, 3⟩) := by decide +kernel
+
+/-- A PE32+ image of 352 bytes whose file layout is its memory layout (`e_lfanew = 0x40`,
+`NumberOfSections = 2`, `SizeOfOptionalHeader = 112`, no data directories, `SizeOfHeaders = 0x120`,
+`SizeOfImage = 0x160`, `BaseOfCode = 0x120`, `SizeOfCode = 0x20`; section table at 0xC8: `.text`
+VirtualSize 0x20, VirtualAddress = PointerToRawData = 0x120, SizeOfRawData 0x20; `.data` VirtualSize
+0x18, VirtualAddress = PointerToRawData = 0x140, SizeOfRawData 0x20); `aa bb 00 cc` at 0x124,
+`aa bb 00 dd` at 0x130, `aa bb 11 cc` at 0x148.  The real `PeFile::from_bytes` and
+`PeView::from_bytes` (pe64) both accept these bytes. -/
+def h64Bytes : Bytes :=
+  #[77, 90, 0, 0, 0, 0, 0, 0, 0, 0, 0, 0, 0, 0, 0, 0, 0, 0, 0, 0, 0, 0, 0, 0, 0, 0, 0, 0, 0, 0, 0, 0, 0, 0,
+  0, 0, 0, 0, 0, 0, 0, 0, 0, 0, 0, 0, 0, 0, 0, 0, 0, 0, 0, 0, 0, 0, 0, 0, 0, 0, 64, 0, 0, 0, 80, 69, 0, 0,
+  100, 134, 2, 0, 0, 0, 0, 95, 0, 0, 0, 0, 0, 0, 0, 0, 112, 0, 34, 32, 11, 2, 14, 0, 32, 0, 0, 0, 32, 0, 0,
+  0, 0, 0, 0, 0, 32, 1, 0, 0, 32, 1, 0, 0, 0, 0, 0, 64, 1, 0, 0, 0, 32, 0, 0, 0, 32, 0, 0, 0, 6, 0, 0, 0, 0,
+  0, 0, 0, 6, 0, 0, 0, 0, 0, 0, 0, 96, 1, 0, 0, 32, 1, 0, 0, 0, 0, 0, 0, 3, 0, 64, 129, 0, 0, 16, 0, 0, 0,
+  0, 0, 0, 16, 0, 0, 0, 0, 0, 0, 0, 0, 16, 0, 0, 0, 0, 0, 0, 16, 0, 0, 0, 0, 0, 0, 0, 0, 0, 0, 0, 0, 0, 0,
+  46, 116, 101, 120, 116, 0, 0, 0, 32, 0, 0, 0, 32, 1, 0, 0, 32, 0, 0, 0, 32, 1, 0, 0, 0, 0, 0, 0, 0, 0, 0,
+  0, 0, 0, 0, 0, 32, 0, 0, 96, 46, 100, 97, 116, 97, 0, 0, 0, 24, 0, 0, 0, 64, 1, 0, 0, 32, 0, 0, 0, 64, 1,
+  0, 0, 0, 0, 0, 0, 0, 0, 0, 0, 0, 0, 0, 0, 64, 0, 0, 192, 0, 0, 0, 0, 0, 0, 0, 0, 0, 0, 0, 0, 170, 187, 0,
+  204, 0, 0, 0, 0, 0, 0, 0, 0, 170, 187, 0, 221, 0, 0, 0, 0, 0, 0, 0, 0, 0, 0, 0, 0, 0, 0, 0, 0, 0, 0, 0, 0,
+  170, 187, 17, 204, 0, 0, 0, 0, 0, 0, 0, 0, 0, 0, 0, 0, 0, 0, 0, 0, 0, 0, 0, 0]
+/-- … as a PE32+ file -/
+def h64File : Pe.View := ⟨⟨h64Bytes, 0⟩, .pe64, .file, 0x140000000⟩
+/-- … as a PE32+ mapped view -/
+def h64View : Pe.View := ⟨⟨h64Bytes, 0⟩, .pe64, .view, 0x140000000⟩
+
+theorem h64_from_bytes : Pe.fromBytes .pe64 .file h64File.img = .ok h64File ∧
+    Pe.fromBytes .pe64 .view h64View.img = .ok h64View := by
+  have h1 : Pe.validate .pe64 h64File.img = .ok 0x160 := by decide +kernel
+  have h2 : Pe.imageBaseField .pe64 h64File.img.bytes = 0x140000000 := by decide +kernel
+  constructor
+  · simp only [Pe.fromBytes, h1, h2]; rfl
+  · show Pe.fromBytes .pe64 .view h64File.img = _
+    simp only [Pe.fromBytes, h1, h2]; rfl
+
+/-- PE32+ FILE, quick search (prefix `aa bb 00 dd` of 4 bytes): one window compares equal, one interpreter call,
+`range.start = cursor + jump` -/
+example : (next h64File [.save 0, .byte 0xAA, .byte 0xBB, .byte 0, .byte 0xDD] (matchesInit 0 0x160) #[0]).bind
+    (fun r => .ok (r.found, r.pos, r.m)) = .ok (true, 0x130, ⟨0x134, 0x160, 1⟩) := by decide +kernel
+/-- PE32+ VIEW, brute force (no literal prefix) -/
+example : (next h64View [.save 0, .skip 1, .byte 0xBB, .byte 0x11] (matchesInit 0x120 0x150) #[0]).bind
+    (fun r => .ok (r.found, r.pos, r.m)) = .ok (true, 0x148, ⟨0x149, 0x150, 41⟩) := by decide +kernel
+/-- PE32 VIEW (the bytes of `wSorted` taken as a mapped image), first-byte scan over the headers and beyond -/
+example : (next { wSorted with kind := .view } wPat (matchesInit 0 0x160) #[0, 0]).bind
+    (fun r => .ok (r.found, r.pos, r.m)) = .ok (true, 0x124, ⟨0x125, 0x160, 1⟩) := by decide +kernel
+
+/-- **A whole scan** `while matches.next(&mut save) { … }` (at most `n` calls), from any state: at
+the end `range.end` is what it was, `range.start` has not decreased and is at most
+`max range.start range.end`; the counter grew by at least the number of reported matches and by at
+most the number of positions `range.start` advanced; every reported position lies in
+`[range.start at the beginning, range.start at the end)`. -/
+theorem C10_scan_hits (v : Pe.View) (pat : List Atom) (n : Nat) (m : MSt) (save : Array Nat) (a : All)
+    (h : scanAll (next v pat) n m save = .ok a) :
+    a.m.stop = m.stop ∧ m.start ≤ a.m.start ∧ a.m.start ≤ max m.start m.stop ∧
+    m.hits + a.hits.length ≤ a.m.hits ∧ a.m.hits ≤ m.hits + (a.m.start - m.start) ∧
+    ∀ x ∈ a.hits, m.start ≤ x.1 ∧ x.1 < a.m.start := by
+  obtain ⟨h1, h2, h3, h4, h5, h6⟩ := scanAll_hits (nx := next v pat)
+    (fun m save r hr => nextWith_hits v (setup pat) m save r hr) n m save a h
+  exact ⟨h1, h2, h3, h4, by omega, h6⟩
+
+/-- **The checked `u32` increment `self.hits += 1` cannot overflow.**  Take a `Matches` object made
+by `Scanner::matches(pat, lo..hi)` (`hi` a `u32`) and ANY finite sequence of returning calls of
+`next` on it, each with a save array of the caller's choice (`Reach`).  In the state it is left in:
+`range.start ≤ max lo hi`, and the counter is at most the number of positions `range.start` advanced,
+hence at most `hi - lo` and below `2^32`.  (The counter only grows during a search — the loop lemmas
+`Lemmas/Scan.lean:strat{0,1,2}Loop_hits` hold from every intermediate loop state — so every value it
+takes during a returning call is bounded by the value at the end of that call.) -/
+theorem C10_hits_no_overflow (v : Pe.View) (pat : List Atom) (lo hi : Nat) (hhi : hi < 4294967296) (m : MSt)
+    (h : Reach (next v pat) (matchesInit lo hi) m) :
+    m.stop = hi ∧ lo ≤ m.start ∧ m.start ≤ max lo hi ∧ m.hits ≤ m.start - lo ∧ m.hits ≤ hi - lo ∧
+    m.hits < 4294967296 := by
+  obtain ⟨h1, h2, h3, _, h5⟩ := Reach_hits (nx := next v pat)
+    (fun m save r hr => nextWith_hits v (setup pat) m save r hr) h
+  simp only [matchesInit] at h1 h2 h3 h5
+  exact ⟨h1, h2, h3, by omega, by omega, by omega⟩
+
+/-- the same for `Scanner::matches_code` (`headers().code_range()`: its end is a `u32`,
+`C10_matches_code_range`), no hypothesis at all -/
+theorem C10_hits_no_overflow_code (v : Pe.View) (pat : List Atom) (m : MSt)
+    (h : Reach (next v pat) (matchesCodeInit v) m) :
+    m.stop = (matchesCodeInit v).stop ∧ (matchesCodeInit v).start ≤ m.start ∧
+    m.hits ≤ m.start - (matchesCodeInit v).start ∧ m.hits ≤ (matchesCodeInit v).stop - (matchesCodeInit v).start ∧
+    m.hits < 4294967296 := by
+  obtain ⟨h0, h1⟩ := C10_matches_code_range v
+  rw [h0] at h
+  obtain ⟨a1, a2, _, a4, a5, a6⟩ := C10_hits_no_overflow v pat _ _ (by rw [h0] at h1; exact h1) m h
+  rw [h0]
+  exact ⟨a1, a2, a4, a5, a6⟩
+
+/-- the scan loop is such a sequence: `C10_hits_no_overflow` applies to the final state of `scanAll` -/
+theorem C10_scan_hits_no_overflow (v : Pe.View) (pat : List Atom) (lo hi : Nat) (hhi : hi < 4294967296)
+    (n : Nat) (save : Array Nat) (a : All) (h : scanAll (next v pat) n (matchesInit lo hi) save = .ok a) :
+    a.hits.length ≤ a.m.hits ∧ a.m.hits ≤ a.m.start - lo ∧ a.m.start ≤ max lo hi ∧ a.m.hits ≤ hi - lo ∧
+    a.m.hits < 4294967296 := by
+  obtain ⟨_, _, h3, h4, h5, h6⟩ := C10_hits_no_overflow v pat lo hi hhi a.m (scanAll_reach n _ _ save a Reach.refl h)
+  obtain ⟨_, _, _, g4, _, _⟩ := C10_scan_hits v pat n _ save a h
+  simp only [matchesInit] at g4
+  exact ⟨by omega, h4, h3, h5, h6⟩
+
+/-- the bound `hits ≤ hi - lo` is attained: PE32+ view, brute force over `0x120..0x150` — 48 positions, 48 interpreter calls -/
+example : (scanAll (next h64View [.save 0, .skip 1, .byte 0xBB, .byte 0x11]) 9 (matchesInit 0x120 0x150) #[0]).bind
+    (fun a => .ok (a.hits.map (·.1), a.m, a.exhausted)) = .ok ([0x148], ⟨0x150, 0x150, 48⟩, true) := by decide +kernel
+/-- PE32+ file, first-byte scan across both sections: 2 matches, 3 interpreter calls, `range.start` ends at the end of the last raw-data slice -/
+example : (scanAll (next h64File wPat) 9 (matchesInit 0 0x160) #[0, 0]).bind
+    (fun a => .ok (a.hits.map (·.1), a.m, a.exhausted)) = .ok ([0x124, 0x148], ⟨0x160, 0x160, 3⟩, true) := by decide +kernel
+/-- PE32 file: see the `scanAll (next wSorted wPat) …` example above (2 matches, `hits = 3`, `range = 0x2020..0x3000`);
+over `matches_code` of the PE32+ file (`0x120..0x140`), quick search -/
+example : (scanAll (next h64File [.save 0, .byte 0xAA, .byte 0xBB, .byte 0, .byte 0xDD]) 9 (matchesCodeInit h64File) #[0]).bind
+    (fun a => .ok (a.hits.map (·.1), a.m, a.exhausted)) = .ok ([0x130], ⟨0x140, 0x140, 1⟩, true) := by decide +kernel
 
 end Pelite.Scan
